@@ -298,14 +298,15 @@ func errDetail(tok string) *status.Status {
 	return &status.Status{Code: 13, Message: wire.Dec(tok[2:])}
 }
 
+var wireRank = map[string]int{"CDS": 0, "EDS": 1, "LDS": 2, "RDS": 3, "SDS": 4, "WDS": 5, "WL": 6, "WAUTH": 7, "ECDS": 8, "NDS": 9}
+
 func showWires(ws []wireResp) string {
 	if len(ws) == 0 {
 		return "-"
 	}
 	// PushOrder first (CDS EDS LDS RDS SDS WDS WL WAUTH), then the unordered types, as the model prints them
-	rank := map[string]int{"CDS": 0, "EDS": 1, "LDS": 2, "RDS": 3, "SDS": 4, "WDS": 5, "WL": 6, "WAUTH": 7, "ECDS": 8, "NDS": 9}
 	c := append([]wireResp(nil), ws...)
-	sort.SliceStable(c, func(i, j int) bool { return rank[c[i].short] < rank[c[j].short] })
+	sort.SliceStable(c, func(i, j int) bool { return wireRank[c[i].short] < wireRank[c[j].short] })
 	parts := make([]string, len(c))
 	for i, w := range c {
 		parts[i] = fmt.Sprintf("%s:res=%s;rem=%s", w.short, encRes(w.res), wire.EncSet(w.removed))
@@ -691,7 +692,11 @@ func (e *equivSys) show() string { return "S:" + showHeld(e.sc) + " D:" + showHe
 
 // deliver hands every captured response to its client, which applies and ACKs it; repeats while
 // the ACKs trigger further responses (bounded).
-func (e *equivSys) deliver() {
+func (e *equivSys) deliver() { e.deliverBudget(1<<30, 1<<30) }
+
+// deliverBudget delivers at most bs responses to the SotW client and bd to the delta client (the
+// stream is cut after that: the remaining responses are lost and never acknowledged).
+func (e *equivSys) deliverBudget(bs, bd int) {
 	e.gotS, e.gotD = sets.New[string](), sets.New[string]()
 	for round := 0; round < 8; round++ {
 		sg, dg := e.ss.got, e.ds.got
@@ -699,6 +704,17 @@ func (e *equivSys) deliver() {
 		if len(sg) == 0 && len(dg) == 0 {
 			return
 		}
+		// canonical order (PushOrder, then ECDS, NDS): the real order of the unordered types is Go map order
+		sort.SliceStable(sg, func(i, j int) bool { return wireRank[sg[i].short] < wireRank[sg[j].short] })
+		sort.SliceStable(dg, func(i, j int) bool { return wireRank[dg[i].short] < wireRank[dg[j].short] })
+		if len(sg) > bs {
+			sg = sg[:bs]
+		}
+		bs -= len(sg)
+		if len(dg) > bd {
+			dg = dg[:bd]
+		}
+		bd -= len(dg)
 		for _, w := range sg {
 			e.gotS.Insert(w.short)
 			ct := e.sc.ty[w.short]
@@ -828,6 +844,21 @@ func (e *equivSys) apply(f []string) (out string) {
 				e.deltaRequest(t, add, rem, nil, "", "-")
 			}
 		}
+	case "pushcut":
+		// a push whose delivery is cut after k responses per client (mid-push, between CDS and EDS,
+		// ...): the clients applied and acknowledged only a prefix; then both streams break
+		k, _ := strconv.Atoi(f[1])
+		for _, t := range typeOrder {
+			e.world[t] = e.pending[t]
+		}
+		_ = pxds.VerifC03PushConnection(e.srv, e.scon, e.pushRequest())
+		_ = pxds.VerifC03PushConnectionDelta(e.srv, e.dcon, e.pushRequest())
+		for _, t := range typeOrder {
+			e.changed[t] = sets.New[string]()
+		}
+		e.deliverBudget(k, k)
+		e.ss.got, e.ds.got = nil, nil
+		return e.apply([]string{"reconnect"})
 	case "reconnect":
 		// both streams break; the server forgets everything about them (fresh proxies, fresh watch
 		// tables, possibly another instance); the clients keep what they hold, their nonces and
@@ -884,7 +915,11 @@ func genEquiv(stream string, seed uint64, n int, outp string) {
 				out.Line("sub", t, wire.EncList(names))
 			case 5:
 				if stream == "reconn" {
-					out.Line("reconnect")
+					if r.Chance(1, 3) {
+						out.Line("pushcut", strconv.Itoa(r.Intn(4)))
+					} else {
+						out.Line("reconnect")
+					}
 					// re-send some or all subscriptions in a random order, possibly with changes made while away
 					for _, t2 := range wire.Subset(r, types, 4, 5) {
 						if r.Chance(1, 3) {
